@@ -2247,7 +2247,15 @@ impl Context {
             }
             Expr::Block(b) => {
                 if let Some(block) = b {
-                    self.eval_expr(*block)
+                    // A block is a scope (the type checker treats it as one): names bound
+                    // inside it end with it, so that a `let` in a nested block does not keep
+                    // shadowing an outer variable of the same name after the block.
+                    let mark = self.valenv.0.front().map(|scope| scope.len());
+                    let res = self.eval_expr(*block);
+                    if let (Some(len), Some(scope)) = (mark, self.valenv.0.front_mut()) {
+                        scope.truncate(len);
+                    }
+                    res
                 } else {
                     (Arc::new(Value::None), unit!(), vec![])
                 }
